@@ -84,6 +84,10 @@ func evilName(r *Rand, real []string, outer string) string {
 		return "//../canarydir"
 	case 14:
 		return "..//canary.txt"
+	case 15:
+		// through a symbolic link that stays inside the tree but points towards the root, then up: the spelling
+		// looks like a place inside the tree, the file system resolves it to one above the root
+		return []string{"up", "back", "top", "sub/back", "sub/deep/top", "up/up", "up/sub/back"}[r.Intn(7)] + strings.Repeat("/..", r.Pick(1, 1, 2)) + "/" + []string{"canary.txt", "canarydir", "planted", "canarydir/planted", "canarydir/inside.txt"}[r.Intn(5)]
 	default:
 		return pick()
 	}
@@ -390,7 +394,9 @@ func c18Exec(x *Ctx) {
 			}
 			// rename with an evil target
 			rn := evilName(r, real, u.Outer)
-			if cr := call(&Msg{Type: Twalk, Fid: 0, Newfid: 4, Wname: []string{"sub", "file"}}); cr != nil && cr.M != nil && cr.M.Type == Rwalk && len(cr.M.Wqid) == 2 && aname == "" {
+			rsrc := [][]string{{"sub", "file"}, {"sub", "file"}, {"sub", "deep", "dfile"}, {"rfile"}}[r.Intn(4)]
+			os.WriteFile(filepath.Join(u.Root, filepath.Join(rsrc...)), []byte("inside"), 0o644)
+			if cr := call(&Msg{Type: Twalk, Fid: 0, Newfid: 4, Wname: rsrc}); cr != nil && cr.M != nil && cr.M.Type == Rwalk && len(cr.M.Wqid) == len(rsrc) && aname == "" {
 				call(&Msg{Type: Twstat, Fid: 4, Stat: nullStat(func(s *Stat) { s.Name = rn })})
 				call(&Msg{Type: Tclunk, Fid: 4})
 				// put it back if it moved inside the tree
